@@ -165,7 +165,7 @@ def subj_selector(b, kind, pattern):
             fitB["y"] = yb  # without y -> with y
         elif r < 0.75:
             fitA["y"], fitB["y"] = ya, yb
-    reads = [("get_support", {}), ("get_support", {"indices": True, "ordered": True}), ("get_support", {"indices": True})]
+    reads = [("score", {"X": "$LASTX", "y": "$LASTY"}), ("get_support", {}), ("get_support", {"indices": True, "ordered": True}), ("get_support", {"indices": True})]
     if axis == 1:
         reads.append(("transform", {"X": "$LASTX"}))
     if fam in ("fps", "pcovfps", "voronoi"):
@@ -518,7 +518,8 @@ def _reads_ops(name, s, fit_args, b, env=None):
             if v == "$LASTX" or v == "$LASTK":
                 a[k] = fit_args[xkey]
             elif v == "$LASTY":
-                a[k] = fit_args[ykey]
+                if ykey in fit_args:
+                    a[k] = fit_args[ykey]
             else:
                 a[k] = v
         ops.append({"op": "CALL", "obj": name, "method": meth, "args": a, "tag": f"{meth}#{i}", "env": env})
@@ -586,6 +587,7 @@ def gen_class_trace(b, kind, pattern):
         for o in reads:
             o["env"] = {"rng": {"seed": _seed(rng)}}
         ops.extend(reads)
+        ops.append({"op": "SNAP", "obj": "e0"})
         between = rng.choice(["reads_only", "other_object", "other_object", "restart", "caller_overwrites_fit_arrays"])
         fit_names = set()
         if between == "caller_overwrites_fit_arrays":
@@ -620,6 +622,7 @@ def gen_class_trace(b, kind, pattern):
             o2["again"] = between
             o2["env"] = {"rng": {"seed": _seed(rng)}}
             ops.append(o2)
+        ops.append({"op": "CHECKSNAP", "obj": "e0", "between": between})
     elif pattern == "repeat":
         for li in range(2):
             nm = f"e{li}"
